@@ -8,7 +8,9 @@
 (* read_variant_headers, get_unstructured_mask).                           *)
 (*                                                                         *)
 (* A source is src[f][t]: the value of field f (fields numbered 1..NF in   *)
-(* header-word = table order) in trace t (1..T, file order).  A table row  *)
+(* header-word = table order) in trace t (1..T: file order; for a regular  *)
+(* cube the order of its positions, inline-major - SgzIngest!WindowedS     *)
+(* states which FILE trace that is for either sorting).  A table row       *)
 (* is <<constant, stored-as>>.  geo is the population mask over the grid   *)
 (* positions (all TRUE for regular and 2-D inputs): trace ordinal i is the *)
 (* i-th TRUE position.                                                     *)
